@@ -42,7 +42,6 @@ Section Instantiation.
   Hypothesis I2 : Inv2a s.
   Hypothesis K : WFk s.
   Hypothesis C : WFc s.
-  Hypothesis Htop : par s RChildren t = None.    (* the top instance is not itself a child *)
 
   Let GA := hpin_occ s t.
   Let GB := hwire_occ s t.
@@ -137,9 +136,9 @@ Section Instantiation.
     - intros (w & c & -> & Hc & ->). rewrite Hc. reflexivity.
   Qed.
 
-  Lemma outer_spec i q x hparent b :
-    outer_hwire s (i :: q :: x :: hparent) = Some b <->
-    exists w c, assoc i (ipins s x) = Some (Some w) /\ par s RWires w = Some c /\ b = w :: c :: hparent.
+  Lemma outer_spec i q x x' p' b :
+    outer_hwire s (i :: q :: x :: x' :: p') = Some b <->
+    exists w c, assoc i (ipins s x) = Some (Some w) /\ par s RWires w = Some c /\ b = w :: c :: x' :: p'.
   Proof.
     cbn. split.
     - destruct (assoc i (ipins s x)) as [[w|]|]; try discriminate.
@@ -147,6 +146,9 @@ Section Instantiation.
       intro H. inversion H. eauto.
     - intros (w & c & -> & Hc & ->). rewrite Hc. reflexivity.
   Qed.
+
+  Lemma outer_root i q x : outer_hwire s [i; q; x] = None.
+  Proof. reflexivity. Qed.
 
   (* the pins attached to a wire occurrence are pin occurrences *)
   Lemma g_pins : forall b a, GB b -> In a (pinsB b) -> GA a.
@@ -180,12 +182,12 @@ Section Instantiation.
       exists w, c, x, p. repeat split; try assumption.
       + apply cables_of_par. eauto.
       + apply kids_par. assumption.
-    - apply outer_spec in Hb as (w & c & Hw & Hc & ->).
-      apply (wc_out s C) in Hw.
-      destruct (wc_local_out s C x i w c Hw Hc) as (d' & q' & d2 & Hd' & Hn & Hq' & Hqd' & Hnr).
-      inversion Hp as [E|c0 x0 p0 Hp0 Hch E]; subst.
-      + (* x is the top instance: it would have to be a child *) congruence.
-      + apply sub_par in Hch as (d0 & Hx0 & Hxd0).
+    - inversion Hp as [E|c0 x0 p0 Hp0 Hch E]; subst.
+      + (* x is the top instance: no outer wire *) rewrite outer_root in Hb. discriminate.
+      + apply outer_spec in Hb as (w & c & Hw & Hc & ->).
+        apply (wc_out s C) in Hw.
+        destruct (wc_local_out s C x i w c Hw Hc) as (d' & q' & d2 & Hd' & Hn & Hq' & Hqd' & Hnr).
+        apply sub_par in Hch as (d0 & Hx0 & Hxd0).
         assert (d0 = d') by congruence. subst.
         exists w, c, x0, p0. repeat split; try assumption.
         * apply cables_of_par. eauto.
@@ -206,9 +208,11 @@ Section Instantiation.
     apply in_nbA in Hb as [Hb|Hb].
     - apply inner_spec in Hb as (w & c & Hw & Hc & ->). apply in_pinsB. left.
       exists i, q. repeat split; [apply (wc_in s C); assumption|assumption].
-    - apply outer_spec in Hb as (w & c & Hw & Hc & ->). apply in_pinsB. right.
+    - destruct p as [|x' p']; [rewrite outer_root in Hb; discriminate|].
+      apply outer_spec in Hb as (w & c & Hw & Hc & ->). apply in_pinsB. right.
       exists x, i, q. repeat split; [apply (wc_out s C); assumption|assumption].
   Qed.
+
   (* ---- the relation walked by the code vs the specification [conn] ---- *)
   Definition code_conn : href -> href -> Prop := HierClosure.conn href href nbA pinsB.
 
